@@ -141,6 +141,14 @@ func runC13L2(r *core.Run) (*core.Violation, func() *core.Violation) {
 				}})
 			}
 		}
+		if chainOps > 0 && len(m.okeys) > 0 {
+			st = append(st, l2Stim{"noise", 2, func() {
+				chainOps--
+				ev := x.noiseEvent(m.orders[m.okeys[r.Choose(len(m.okeys), "noise.order")]])
+				m.outbox = append(m.outbox, ev)
+				r.Logf("step %d: chain: noise %s", x.s.Step, evName(ev))
+			}})
+		}
 		st = append(st, l2Stim{"clock", 1, func() {
 			d := []time.Duration{time.Second, 20 * time.Second, 6 * time.Minute}[r.Choose(3, "clock.d")]
 			time.Sleep(d)
